@@ -102,6 +102,65 @@ def handleAssign (j : Json) : R Json := do
   | .ok d => pure (Json.mkObj [("ok", Json.bool true), ("types", enc d)])
   | .error d => pure (Json.mkObj [("ok", Json.bool false), ("types", enc d)])
 
+open GBS.P in
+def handleParse (j : Json) : R Json := do
+  let kind ← strOf (← getF j "kind")
+  let text := (← strOf (← getF j "text")).toList
+  let validL ← listOf strOf (← getF j "valid")
+  let valid : Py.Str → Bool := fun t => validL.contains (String.ofList t)
+  let errJ := fun (e : PErr) => Json.mkObj [("ok", Json.bool false), ("err", Json.str ((reprStr e).replace "GBS.P.PErr." ""))]
+  match kind with
+  | "desc" =>
+    let pre := (← strOf (← getF j "pre")).toList
+    let atom ← optOf natOf (← getF j "atom")
+    match parseDesc text 0 pre atom with
+    | .error e => pure (errJ e)
+    | .ok p => pure (Json.mkObj [("ok", Json.bool true), ("v", pdescToJson p),
+        ("ext", Json.str (String.ofList (printDesc p true))), ("noext", Json.str (String.ofList (printDesc p false)))])
+  | "token" =>
+    let off ← natOf (← getF j "offset")
+    match parseToken valid text off 0 with
+    | .error e => pure (errJ e)
+    | .ok t => pure (Json.mkObj [("ok", Json.bool true), ("v", ptokenToJson t)])
+  | "stoch" =>
+    match parseStoch valid text 0 with
+    | .error e => pure (errJ e)
+    | .ok o => pure (Json.mkObj [("ok", Json.bool true), ("v", pstochToJson o)])
+  | "mol" =>
+    match parseMol valid text 0 with
+    | .error e => pure (errJ e)
+    | .ok m => pure (Json.mkObj [("ok", Json.bool true), ("v", pmolToJson m)])
+  | "system" =>
+    let M ← optOf ratOf (← getF j "M")
+    match parseSystem valid text with
+    | .error e => pure (errJ e)
+    | .ok ms =>
+      -- the mixture bookkeeping of `System.__init__` on the parsed mixtures
+      let mixes : List (Option Mix) := ms.map fun m => m.mix.map fun x => ({ abs := x.abs, rel := x.rel } : Mix)
+      match estimate mixes M with
+      | .error e => pure (Json.mkObj [("ok", Json.bool false), ("err", Json.str ("estimate:" ++ (reprStr e).replace "GBS.EErr." ""))])
+      | .ok (g, mixes') =>
+        let ms' : List PMol := (ms.zip mixes').map fun (m, x) => { m with mix := x.map fun y => ({ abs := y.abs, rel := y.rel } : PMix) }
+        pure (Json.mkObj [("ok", Json.bool true), ("gen", Json.bool g), ("v", Json.arr (ms'.map pmolToJson).toArray),
+          ("ext", Json.str (String.ofList (ms'.map (printMol · true)).flatten)),
+          ("noext", Json.str (String.ofList (ms'.map (printMol · false)).flatten))])
+  | "dist" =>
+    match parseDist text with
+    | .error e => pure (errJ e)
+    | .ok d => pure (Json.mkObj [("ok", Json.bool true), ("v", pdistToJson d), ("ext", Json.str (String.ofList (printDist d)))])
+  | "mix" =>
+    match parseMixture text with
+    | .error e => pure (errJ e)
+    | .ok x => pure (Json.mkObj [("ok", Json.bool true), ("abs", optRatToJson x.abs), ("rel", optRatToJson x.rel),
+        ("ext", Json.str (String.ofList (printMix x true)))])
+  | "float" =>
+    match Num.parseFloat text with
+    | .ok q => pure (Json.mkObj [("ok", Json.bool true), ("q", ratToJson q),
+        ("repr", match Num.reprFloat q with | some r => Json.str (String.ofList r) | none => Json.null)])
+    | .nonFinite => pure (Json.mkObj [("ok", Json.bool true), ("q", Json.null)])
+    | .bad => pure (Json.mkObj [("ok", Json.bool false)])
+  | k => throw s!"unknown parse kind {k}"
+
 def handle (j : Json) : R Json := do
   let op ← strOf (← getF j "op")
   match op with
@@ -112,6 +171,7 @@ def handle (j : Json) : R Json := do
   | "ESTIM" => handleEstim j
   | "SYSGEN" => handleSysGen j
   | "FFRUN" => handleFFRun j
+  | "PARSE" => handleParse j
   | "ASSIGN" => handleAssign j
   | "COMPATMAT" => handleCompatMat j
   | _ => throw s!"unknown op {op}"
